@@ -277,6 +277,11 @@ class NestedChildren(WrappingQuery):
     def _rewrap(self, child):
         return self.__class__(self.parents, child, boost=self.boost)
 
+    def estimate_size(self, ixreader):
+        # The matches are the children of the parents the wrapped query
+        # matches; one parent can have any number of them
+        return ixreader.doc_count()
+
     def field(self):
         # The matches are the child documents of the parents the wrapped query
         # matches, not the documents it matches in its field
